@@ -6,8 +6,9 @@
    happen at any time; WriterOpen / WriterClose / DBClose take effect somewhere between
    their call and return events.
 
-   Events - every event has all fields  ev, p, q, ks, m :
-     reset                          a new scenario (fresh DB)
+   Events - every event has all fields  ev, p, q, ks, m, will :
+     reset  will=[[s,w,q]...]       a new scenario (fresh DB); `will` (empty in every other event)
+                                    lists the frames the scenario's log shows being read
      wopen.call / wopen.ret   p=w   DB.OpenWriter
      wcall  p=w q=seq               Writer.Write about to be called with frame (w, seq, WKeys[w])
      wret   p=w q=seq               it returned (Sync writers: the frame has been pushed)
@@ -27,6 +28,7 @@
 EXTENDS Relay, Json
 CONSTANT SyncWriters        \* writers opened with Sync = true
 VARIABLES l, pc,
+          will,  \* prophecy: the (streamer, writer, seq) the current scenario's log shows being read
           cbuf   \* [Streamers -> frame | NoFrame]: read by the consumer goroutine, "recv" not yet
                  \* logged (the log entry is written after the channel receive, so the slot of
                  \* s.Out is free earlier than the event says)
@@ -35,10 +37,11 @@ ASSUME TLCSet(1, 0)
 E == Trace[l]
 More == l <= Len(Trace)
 Procs == Writers \cup Streamers \cup {"db"}
-tvars == <<vars, l, pc, cbuf>>
+tvars == <<vars, l, pc, cbuf, will>>
 SetOf(seq) == {seq[i] : i \in DOMAIN seq}
 
 TInit == Init /\ l = 1 /\ pc = [p \in Procs |-> "idle"] /\ cbuf = [s \in Streamers |-> NoFrame]
+         /\ will = {}
 
 Ev(name) == More /\ E.ev = name
 Step == l' = l + 1
@@ -58,48 +61,58 @@ TReset ==
   /\ subHist' = [s \in Streamers |-> <<>>]
   /\ owed' = [s \in Streamers |-> {}] /\ emptied' = [s \in Streamers |-> {}]
   /\ pc' = [p \in Procs |-> "idle"] /\ cbuf' = [s \in Streamers |-> NoFrame]
+  /\ will' = SetOf(E.will)
   /\ Step
 
 \* ---- writers
-TWOpenCall == Ev("wopen.call") /\ pc[E.p] = "idle" /\ Pc(E.p, "wopen") /\ Step /\ UNCHANGED <<vars, cbuf>>
+TWOpenCall == Ev("wopen.call") /\ pc[E.p] = "idle" /\ Pc(E.p, "wopen") /\ Step /\ UNCHANGED <<vars, cbuf, will>>
 TWOpenRet  == Ev("wopen.ret") /\ pc[E.p] = "wopen" /\ wstate[E.p] = "open"
-              /\ Pc(E.p, "idle") /\ Step /\ UNCHANGED <<vars, cbuf>>
-TWCall == Ev("wcall") /\ wnext[E.p] = E.q /\ WriteCall(E.p) /\ Step /\ UNCHANGED <<pc, cbuf>>
+              /\ Pc(E.p, "idle") /\ Step /\ UNCHANGED <<vars, cbuf, will>>
+TWCall == Ev("wcall") /\ wnext[E.p] = E.q /\ WriteCall(E.p) /\ Step /\ UNCHANGED <<pc, cbuf, will>>
 TWRet  == Ev("wret") /\ (E.p \in SyncWriters => Len(written[E.p]) >= E.q)
-          /\ Step /\ UNCHANGED <<vars, pc, cbuf>>
-TWCloseCall == Ev("wclose.call") /\ pc[E.p] = "idle" /\ Pc(E.p, "wclose") /\ Step /\ UNCHANGED <<vars, cbuf>>
+          /\ Step /\ UNCHANGED <<vars, pc, cbuf, will>>
+TWCloseCall == Ev("wclose.call") /\ pc[E.p] = "idle" /\ Pc(E.p, "wclose") /\ Step /\ UNCHANGED <<vars, cbuf, will>>
 TWCloseRet  == Ev("wclose.ret") /\ pc[E.p] = "wclose" /\ wstate[E.p] = "closed"
-               /\ Pc(E.p, "idle") /\ Step /\ UNCHANGED <<vars, cbuf>>
+               /\ Pc(E.p, "idle") /\ Step /\ UNCHANGED <<vars, cbuf, will>>
 
 \* ---- streamers
-TSOpenCall == Ev("sopen.call") /\ StreamerOpen(E.p, SetOf(E.ks)) /\ Step /\ UNCHANGED <<pc, cbuf>>
-TSOpenRet  == Ev("sopen.ret") /\ sst[E.p] = "Running" /\ Step /\ UNCHANGED <<vars, pc, cbuf>>
-TSSubCall  == Ev("ssub.call") /\ ResubCall(E.p, SetOf(E.ks)) /\ Step /\ UNCHANGED <<pc, cbuf>>
-TSSubRet   == Ev("ssub.ret") /\ ~req[E.p].has /\ Step /\ UNCHANGED <<vars, pc, cbuf>>
-TSCloseCall == Ev("sclose.call") /\ StreamerClose(E.p, E.m) /\ Step /\ UNCHANGED <<pc, cbuf>>
-TSCloseRet  == Ev("sclose.ret") /\ sst[E.p] = "Closed" /\ Step /\ UNCHANGED <<vars, pc, cbuf>>
+TSOpenCall == Ev("sopen.call") /\ StreamerOpen(E.p, SetOf(E.ks)) /\ Step /\ UNCHANGED <<pc, cbuf, will>>
+TSOpenRet  == Ev("sopen.ret") /\ sst[E.p] = "Running" /\ Step /\ UNCHANGED <<vars, pc, cbuf, will>>
+TSSubCall  == Ev("ssub.call") /\ ResubCall(E.p, SetOf(E.ks)) /\ Step /\ UNCHANGED <<pc, cbuf, will>>
+TSSubRet   == Ev("ssub.ret") /\ ~req[E.p].has /\ Step /\ UNCHANGED <<vars, pc, cbuf, will>>
+TSCloseCall == Ev("sclose.call") /\ StreamerClose(E.p, E.m) /\ Step /\ UNCHANGED <<pc, cbuf, will>>
+TSCloseRet  == Ev("sclose.ret") /\ sst[E.p] = "Closed" /\ Step /\ UNCHANGED <<vars, pc, cbuf, will>>
 TRecv ==
   /\ Ev("recv")
   /\ cbuf[E.p] = Frame(E.m, E.q, SetOf(E.ks))
   /\ cbuf' = [cbuf EXCEPT ![E.p] = NoFrame]
-  /\ Step /\ UNCHANGED <<vars, pc>>
+  /\ Step /\ UNCHANGED <<vars, pc, will>>
 
 \* ---- database
-TDBCloseCall == Ev("dbclose.call") /\ pc["db"] = "idle" /\ Pc("db", "dbclose") /\ Step /\ UNCHANGED <<vars, cbuf>>
+TDBCloseCall == Ev("dbclose.call") /\ pc["db"] = "idle" /\ Pc("db", "dbclose") /\ Step /\ UNCHANGED <<vars, cbuf, will>>
 TDBCloseRet  == Ev("dbclose.ret") /\ pc["db"] = "dbclose" /\ dbClosed
-                /\ Pc("db", "idle") /\ Step /\ UNCHANGED <<vars, cbuf>>
+                /\ Pc("db", "idle") /\ Step /\ UNCHANGED <<vars, cbuf, will>>
 
 PipeEmpty ==
   /\ inlet = <<>> /\ dcur = NoFrame
   /\ \A w \in Writers : wq[w] = <<>>
   /\ \A s \in Streamers : held[s] = NoFrame /\ out[s] = <<>> /\ cbuf[s] = NoFrame
-TQuiesce == Ev("quiesce") /\ PipeEmpty /\ Step /\ UNCHANGED <<vars, pc, cbuf>>
+TQuiesce == Ev("quiesce") /\ PipeEmpty /\ Step /\ UNCHANGED <<vars, pc, cbuf, will>>
 
 \* ---- silent steps
+\* Lossy configuration (no always-ready consumer): whether the delta hands the current frame to
+\* outlet s or times out is decided by the prophecy - it hands it over iff the log shows s's
+\* consumer reading that frame later. This loses no behaviour: a frame that is handed over and
+\* never read only occupies s's goroutine and output stream, which can disable but never enable
+\* anything else, so "timed out" explains at least as much.
+Lossy == Ready = {}
+Read(s) == [s |-> s, w |-> dcur.w, q |-> dcur.q] \in will
 SysNoRecv ==
   \/ \E w \in Writers : WriterPush(w)
   \/ DeltaTake
-  \/ \E s \in Streamers : \/ DeltaSendTo(s) \/ DeltaTimeout(s) \/ DeltaConnect(s)
+  \/ \E s \in Streamers : \/ DeltaSendTo(s) /\ (Lossy => Read(s))
+                          \/ DeltaTimeout(s) /\ ~Read(s)
+                          \/ DeltaConnect(s)
                           \/ DeltaDisconnect(s) \/ StreamerFilterSend(s) \/ Resubscribe(s)
                           \/ StreamerExit(s) \/ DrainDone(s)
 TSilent ==
@@ -107,12 +120,12 @@ TSilent ==
         \/ \E w \in Writers : pc[w] = "wopen" /\ WriterOpen(w)
         \/ \E w \in Writers : pc[w] = "wclose" /\ WriterClose(w)
         \/ pc["db"] = "dbclose" /\ DBClose
-     /\ UNCHANGED <<l, pc, cbuf>>
+     /\ UNCHANGED <<l, pc, cbuf, will>>
   \/ \E s \in Streamers :
         /\ cbuf[s] = NoFrame /\ out[s] # <<>>
         /\ cbuf' = [cbuf EXCEPT ![s] = Head(out[s])]
         /\ ConsumerRecv(s)
-        /\ UNCHANGED <<l, pc>>
+        /\ UNCHANGED <<l, pc, will>>
 
 TNext == TReset \/ TWOpenCall \/ TWOpenRet \/ TWCall \/ TWRet \/ TWCloseCall \/ TWCloseRet
          \/ TSOpenCall \/ TSOpenRet \/ TSSubCall \/ TSSubRet \/ TSCloseCall \/ TSCloseRet
